@@ -21,6 +21,7 @@ func init() {
 			"(R05.4) dataToByteSliceWithExtKeys reverses the emitted statements after the loop and before assembling the function literal; " +
 			"(R05.5) the size window is [8, 2048] and the string path, the composite-literal path and pickObfuscator all use it; " +
 			"(R05.6) the literal obfuscator skips exactly //go:nosplit functions, const declarations, -ldflags=-X variables and constant expressions of a non-string kind (array lengths and the like must stay constant), and the -X variable set is computed whenever -literals is on. " +
+			"(R05.7) the []byte an obfuscated slice literal evaluates to is clipped to its length (a composite literal has no spare capacity, so appends to it never alias). " +
 			"Does not decide decode(encode(x)) = x for any obfuscator: key placement, index arithmetic and chunk order are value-level.",
 		perConfig: checkC05,
 	})
@@ -379,6 +380,7 @@ func checkC05(c *Ctx) {
 	}
 
 	checkLiteralSkips(c, "R05.6")
+	checkSliceClipped(c)
 }
 
 // checkLiteralSkips: the pre-callback of literals.Obfuscate returns false in exactly three situations.
@@ -520,3 +522,44 @@ func freeVarName(v ssa.Value) string {
 }
 
 var _ = strings.Join
+
+// R05.7. A []byte composite literal evaluates to a slice with cap == len, so
+// "b := append(a, 11); c := append(a, 12)" gives two different backing arrays. The
+// obfuscators build their result with make(..., n+1) and append, which can leave spare
+// capacity; unless the emitted function clips the result (a three-index slice), the two
+// appends share memory and b[n] == 12.
+func checkSliceClipped(c *Ctx) {
+	w := c.W
+	c.Rule("R05.7", "an obfuscated []byte literal is clipped to cap == len before it is returned", 1)
+	fn := w.Fn("literals.obfuscateByteSlice")
+	if fn == nil {
+		c.Undecided("R05.7", "obfuscateByteSlice", "", "function not found")
+		return
+	}
+	var clip ssa.Instruction
+	for _, b := range fn.Blocks {
+		for _, in := range b.Instrs {
+			st, ok := in.(*ssa.Store)
+			if !ok {
+				continue
+			}
+			fa, ok := st.Addr.(*ssa.FieldAddr)
+			if !ok || namedOf(fa.X.Type()) != "SliceExpr" || fieldName(fa.X.Type(), fa.Field) != "Slice3" {
+				continue
+			}
+			if v, ok := constBool(st.Val); ok && v {
+				clip = st
+			}
+		}
+	}
+	ok := clip != nil
+	if ok {
+		for _, r := range returnsOf(fn) {
+			if !dominatesInstr(clip, r) {
+				ok = false
+			}
+		}
+	}
+	c.Check(ok, "R05.7", "obfuscateByteSlice clips its result", w.Pos(fn.Pos()), "data = data[:n:n] is emitted on every path before the return",
+		"the emitted function returns the obfuscators' slice as is: it can have spare capacity, so two appends to the same literal write to the same memory (b := append(a, 11); c := append(a, 12); b[len(a)] == 12)")
+}
